@@ -650,7 +650,7 @@ def run_bzr_query(base, basis, wtsnap, sel, excl, variant="strict"):
                 continue
             if not justified(i, recorded, must | presel, basis, wtsnap, eff, bp, wp):
                 fam = None
-                if i in vac and not any(j != i and wp.get(j) == bp.get(i) for j in S):
+                if i in vac and not (bp.get(i) is not None and any(j != i and wp.get(j) == bp.get(i) for j in S)):
                     fam = "dirstate-unselected-entry-at-vacated-path"
                 counters.append("bzr:unselected-committed")
                 viol.append(("O2 the pending change of unselected id %s (basis path %r, working path %r) was committed with "
